@@ -25,12 +25,16 @@ class State:
     def __init__(self, names, ending):
         self.dir = tempfile.mkdtemp(prefix="gverif-c14-")
         self.ending = ending
-        self.g = GCodeBuilder(line_endings=ending)
+        cfgpath = os.path.join(self.dir, "cfgpath.gcode")
+        self.g = GCodeBuilder(line_endings=ending, output=cfgpath) if "cfgpath" in names else GCodeBuilder(line_endings=ending)
         self.end = ending.encode().decode("unicode-escape").encode("utf-8")
         self.writers, self.kind, self.path, self.stream = {}, {}, {}, {}
         for n in names:
             path = os.path.join(self.dir, n + ".gcode")
-            if n.startswith("path"):
+            if n == "cfgpath":
+                # the file writer the builder creates itself from its `output` option (registered from the start)
+                self.writers[n], self.kind[n], self.path[n] = self.g.get_writer(0), "path", path
+            elif n.startswith("path"):
                 self.writers[n], self.kind[n], self.path[n] = FileWriter(path), "path", path
             elif n == "text":
                 f = open(path, "w", encoding="utf-8", newline="")
@@ -41,7 +45,7 @@ class State:
             else:
                 self.writers[n], self.kind[n] = Recorder(n), "recorder"
         # reference model
-        self.registry = []
+        self.registry = ["cfgpath"] if "cfgpath" in names else []
         self.log = {n: b"" for n in names}          # everything a writer should have received
         self.session = {n: b"" for n in names}      # path files: content of the current (or last) session
         self.open = {n: False for n in names}       # path files: session open (written since last disconnect)
@@ -199,9 +203,11 @@ ASSUMPTIONS = ["not demanded: that teardown pushes a caller-owned buffered file 
 def systems(tier):
     if tier == "quick":
         return [("lf-4writers", C14System(["pathA", "text", "rec1", "rec2"], "\\n", 2), 6, None),
-                ("crlf-3writers", C14System(["rec1", "pathA", "binary"], "\\r\\n", 2), 5, None)]
+                ("crlf-3writers", C14System(["rec1", "pathA", "binary"], "\\r\\n", 2), 5, None),
+                ("output-option", C14System(["cfgpath", "rec1"], "\\n", 2), 5, None)]
     return [("lf-5writers", C14System(["pathA", "pathB", "text", "rec1", "rec2"], "\\n", 3), 6, None),
-            ("crlf-4writers", C14System(["rec1", "pathA", "binary", "text"], "\\r\\n", 3), 7, None)]
+            ("crlf-4writers", C14System(["rec1", "pathA", "binary", "text"], "\\r\\n", 3), 7, None),
+            ("output-option", C14System(["cfgpath", "rec1", "pathA"], "\\n", 3), 7, None)]
 
 
 def run(tier, seed):
